@@ -1464,7 +1464,7 @@ static void DecodeADDS_SUBS(Word IsSUBS) {
                 DecodeAdr(&ArgStr[1], MModImm);
                 if (AdrMode != ModNone) {
                     LongInt AdrLong = ImmVal();
-                    if ((AdrLong != 1) && (AdrLong != 2) && (AdrLong != 4)) {
+                    if ((AdrLong != 1) && (AdrLong != 2) && ((AdrLong != 4) || CPU16)) {
                         WrError(ErrNum_OverRange);
                     } else {
                         switch (AdrLong) {
